@@ -552,6 +552,13 @@ class _Run:
                     if t.kind != "callable":
                         self.report(e, "text formatting of an arbitrarily ordered collection", t)
                 return None
+            if f.attr in ("subs", "xreplace", "replace") and tainted:
+                # SymPy substitutes the pairs of a *sequence* one after the other: with an arbitrarily ordered sequence the result
+                # depends on which replacement is applied first whenever one replacement mentions another's symbol
+                for a, t in tainted:
+                    if t.kind in ("seq",):
+                        self.report(e, "sequential substitution in the order of an arbitrarily ordered sequence", t)
+                return None
             if recv is not None:
                 if f.attr == "pop" and recv.kind == "set":
                     self.report(e, "set.pop() takes an arbitrary element", recv)
